@@ -210,6 +210,79 @@ def case_volume(case):
                         mu=with_mu) if vd == 'cex' else None)]
 
 
+def case_gridding_props(name):
+    """Automatic gridding sees the same conductivities under every mapping:
+    the property list extracted by meshes.estimate_gridding_opts (source
+    cell and the six boundary faces) is the mapped minimum conductivity."""
+    E = shadow.load()
+    c = set_ctx(Ctx(timeout_ms=60000))
+    State.OBJECT_ALLOC = True
+    grid = E.meshes.TensorMesh([np.array([1., 1.]), np.array([2.]),
+                                np.array([2.])], (0., 0., 0.))
+    shape = grid.shape_cells
+    M = getattr(E.maps, 'Map'+name)()
+    sx = sym_array('sx', shape, positive=True)
+    sz = sym_array('sz', (1, 1, 1), positive=True)
+    State.OBJECT_ALLOC = False
+    survey = E.surveys.Survey(E.electrodes.TxElectricDipole(
+        (0.5, 1.0, 1., 0., 0.)), E.electrodes.RxElectricPoint(
+            (1.5, 1.0, 1., 0., 0.)), [1.0])
+    State.OBJECT_ALLOC = True
+    grp = f"gridding properties map={name}"
+    bad = None
+    npaths = 0
+    t0 = time.time()
+
+    def path():
+        model = E.models.Model(
+            grid, property_x=M.forward(sx), property_z=M.forward(
+                np.broadcast_to(sz, shape).copy().view(symx.SymArray)),
+            mapping=name)
+        g = E.meshes.estimate_gridding_opts({}, model, survey)
+        return g['properties']
+    try:
+        for props, pc, tr in c.explore(path, budget_s=600, max_paths=3000):
+            npaths += 1
+            c.pc = pc
+            regions = [(0, 0, 0)]    # source cell index resolved below
+            sl = [(0, slice(None), slice(None)), (-1, slice(None),
+                  slice(None)), (slice(None), 0, slice(None)),
+                  (slice(None), -1, slice(None)),
+                  (slice(None), slice(None), 0),
+                  (slice(None), slice(None), -1)]
+            ix = int(np.argmin(abs(grid.nodes_x-0.5)))
+            iy = int(np.argmin(abs(grid.nodes_y-1.0)))
+            iz = int(np.argmin(abs(grid.nodes_z-1.0)))
+            sels = [(ix, iy, iz)]+sl
+            conj = []
+            for pr, sel in zip(props, sels):
+                vals = [v for v in np.atleast_1d(sx[sel]).ravel()] + \
+                    [sz[0, 0, 0]]
+                sig = M.backward(np.array([pr], dtype=object).view(
+                    symx.SymArray))[0]
+                conj.append(z3.And(*[symx.qt(sig) <= v.t for v in vals]))
+                conj.append(z3.Or(*[symx.qt(sig) == v.t for v in vals]))
+            v, m = c.valid(z3.And(*conj), label='gridding props')
+            if v != 'held':
+                bad = v
+                break
+    except Inconclusive as e:
+        return [ob("exploration", 'unknown', group=grp, cls='UF+NRA',
+                   note=str(e))]
+    if bad:
+        return [ob("properties handed to the automatic gridding are the "
+                   "minimum conductivities of the source cell and the six "
+                   "boundary faces", bad, group=grp, cls='UF+NRA',
+                   seconds=time.time()-t0,
+                   key=f"automatic gridding extracts other conductivities "
+                       f"under Map{name}",
+                   cex=dict(kind='gridding', map=name))]
+    return [ob(f"{npaths} orderings: properties handed to the automatic "
+               f"gridding are the (mapped) minimum conductivities of the "
+               f"source cell and the six boundary faces", 'held', group=grp,
+               cls='UF+NRA', seconds=time.time()-t0)]
+
+
 def case_validation(case):
     """Model construction / assignment on symbolic doubles."""
     name, which = case
@@ -356,6 +429,28 @@ def replay(cex):
             worst = max(worst, float(np.abs(a-b).max()/np.abs(b).max()))
         return worst > 1e-9, (f"VolumeModel under Map{name} vs Conductivity "
                               f"({an}): max rel. diff {worst:.2e}")
+    if kind == 'gridding':
+        grid = emg3d.TensorMesh([np.array([1., 1.]), np.array([2.]),
+                                 np.array([2.])], (0., 0., 0.))
+        survey = emg3d.Survey(emg3d.TxElectricDipole((.5, 1., 1., 0., 0.)),
+                              emg3d.RxElectricPoint((1.5, 1., 1., 0., 0.)),
+                              [1.0])
+        worst = 0.0
+        for _ in range(10):
+            sx = 10**rng.uniform(-2, 2, grid.shape_cells)
+            sz = 10**rng.uniform(-2, 2, grid.shape_cells)
+            g = emg3d.meshes.estimate_gridding_opts({}, emg3d.Model(
+                grid, property_x=M.forward(sx), property_z=M.forward(sz),
+                mapping=name), survey)
+            g0 = emg3d.meshes.estimate_gridding_opts({}, emg3d.Model(
+                grid, property_x=sx, property_z=sz, mapping='Conductivity'),
+                survey)
+            a = M.backward(np.array(g['properties']))
+            b = np.array(g0['properties'])
+            worst = max(worst, float(np.abs(a/b-1).max()))
+        return worst > 1e-9, (f"real estimate_gridding_opts under Map{name} "
+                              f"vs Conductivity: extracted conductivities "
+                              f"differ by up to {worst:.2e} (relative)")
     if kind == 'validation':
         vals = cex.get('values') or [1.0, 1.0]
         grid = emg3d.TensorMesh([[1.], [1.], [1.]], (0, 0, 0))
@@ -399,6 +494,8 @@ def main(tier):
                           'MapLgResistivity', 'MapLnResistivity']))
     run.functions.update(shadow.func_lines(
         'emg3d/models.py', ['Model', 'VolumeModel']))
+    run.functions.update(shadow.func_lines(
+        'emg3d/meshes.py', ['estimate_gridding_opts']))
     run.extra['hashes'] = {k: v for k, v in shadow.hashes().items()
                            if k in ('emg3d/maps.py', 'emg3d/models.py')}
     jobs = [('case_map', n) for n in MAPS]
@@ -412,6 +509,7 @@ def main(tier):
                           (True, True)]
             for e, mu in combos:
                 jobs.append(('case_volume', (n, an, e, mu)))
+    jobs += [('case_gridding_props', n) for n in MAPS]
     for n in ('Conductivity', 'Resistivity'):
         for w in ('property_x', 'property_y', 'property_z'):
             jobs.append(('case_validation', (n, w)))
